@@ -7,6 +7,11 @@ one vector of the right or of a wrong length):
     (independent of the Lean model),
   * the Lean model (Core/Vectorize.lean) executed by the driver on the same exact rationals, in two
     variants: C = the code as found, F = with the proposed patches applied.
+Every (object, vector) pair is also driven through the deprecated mutator from_vector_inplace on a twin object
+(model: Shape.fvi / Img.fvi / Xf.fvi, incl. the receiver after a failed update), images through the options
+n_channels / keep_channels / copy=False, and the dtype of every rebuilt array is compared with the model's dtype
+calculus.  Two tables are regenerated per run (extract_c05): method resolution, and the measured effects table
+(which arrays copy() makes fresh, _from_vector_inplace writes in place / rebinds, from_vector shares).
 """
 import json
 
@@ -16,40 +21,61 @@ from . import extract_c05
 PROP = "C05"
 INFO = dict(
     technique="Lean 4 proof over an executable model of the Vectorizable protocol assembled per class through the "
-              "method-resolution table regenerated from the live classes (3 `decide` obligations) + model/"
-              "implementation correspondence and an independent property oracle on all 23 concrete Vectorizable "
-              "classes",
-    level_text="Theorems over the model of as_vector / n_parameters / from_vector for PointCloud and the 7 graph/mesh "
-               "subclasses, Image / MaskedImage / BooleanImage and the 12 homogeneous transform classes: both round "
-               "trips, vector length = n_parameters, carried state (mask, connectivity, labels, texture, landmarks) "
-               "kept, masked layout (channel-major raster order, zero elsewhere), alignment target re-synced, "
-               "wrong-length vectors rejected or well-formed (refuted by witness for the code as found at five "
-               "sites, proved for the patched behaviour), receiver purity on a heap model fed by the regenerated "
-               "table, and the quaternion round trip under the `eigh` contract.  The model is tied to /repo by "
-               "the regenerated table (dispatch_ok) and by running every case through the real classes and the "
-               "Lean driver; a property oracle independent of the model decides the property on the real code.",
-    level_note="Trusted: Lean kernel; axioms propext/Classical.choice/Quot.sound; harness/extract_c05.py, the Python "
-               "harness and oracle, the driver's parser.  numpy `reshape` / boolean-mask indexing / `fill_diagonal` "
-               "/ broadcasting semantics are modelled (exercised by the correspondence, not verified).  "
-               "`np.linalg.eigh` is a contract parameter (symmetric input -> unit eigenvector of the largest "
-               "eigenvalue), checked numerically on every rotation case.  Float rounding is outside the model "
-               "(exact rationals; dyadic inputs make all but the rotation cases exact, comparison 1e-9).",
-    rule="a case = (fully populated object, vector); objects over all 23 concrete Vectorizable classes x dims where "
-         "vectorizable x landmark groups 0..2 x masks all-true/sparse/single/empty x dtypes; vectors: the object's "
-         "own vector, right-length dyadic vectors (canonical unit quaternions for rotations), wrong lengths "
-         "n+-1, n/2, 2n, 0, 1 and the other branch lengths 4/6/7/12; distinct = distinct (class, object recipe, "
+              "method-resolution table regenerated from the live classes, plus a heap model of copy() / attribute "
+              "rebinding / in-place writes whose per-class effects table is measured on instrumented live objects on "
+              "every run (5 `decide` obligations) + model/implementation correspondence (from_vector, the deprecated "
+              "from_vector_inplace, the n_channels / keep_channels options, dtypes) and an independent property oracle "
+              "on all 23 concrete Vectorizable classes",
+    level_text="Theorems over the model of as_vector / n_parameters / from_vector / from_vector_inplace for PointCloud "
+               "and the 7 graph/mesh subclasses, Image / MaskedImage / BooleanImage and the 12 homogeneous transform "
+               "classes: both round trips, vector length = n_parameters, every right-length vector accepted, carried "
+               "state (mask, connectivity, labels, texture, landmarks) kept, masked layout (channel-major raster "
+               "order, zero elsewhere), alignment target re-synced, wrong-length vectors rejected or well-formed "
+               "(refuted by witness for the code as found at five sites, proved for the patched behaviour), the "
+               "quaternion round trip under the `eigh` contract (shown satisfiable at every unit quaternion), the "
+               "error kinds in the dimensions where a class is not vectorizable, boundary images (all-false masks, "
+               "any number of dimensions), the dtype of the rebuilt array (follows the vector), the image options "
+               "n_channels / keep_channels, and receiver purity over histories: any program of from_vector calls "
+               "leaves every existing object untouched, and the deprecated in-place mutator changes its receiver "
+               "only (ownership invariant on the writable buffers, by induction over the program).  The model is "
+               "tied to /repo by the regenerated method-resolution table (dispatch_ok), by the effects table "
+               "measured on live objects (effects_ok: buffers fresh in copy(), written in place, rebound, shared "
+               "between receiver and result) and by running every case through the real classes and the Lean "
+               "driver; a property oracle independent of the model decides the property on the real code.",
+    level_note="Trusted: Lean kernel; axioms propext/Classical.choice/Quot.sound; harness/extract_c05.py (table "
+               "extraction and the array instrumentation), the Python harness and oracle, the driver's parser.  numpy "
+               "`reshape` / boolean-mask indexing / `fill_diagonal` / broadcasting / dtype-of-construction semantics "
+               "are modelled (exercised by the correspondence, not verified).  `np.linalg.eigh` is a contract "
+               "parameter (symmetric input -> unit eigenvector of the largest eigenvalue), checked numerically on "
+               "every rotation case.  Float rounding is outside the model (exact rationals; dyadic inputs make all "
+               "but the rotation cases exact, comparison 1e-9).",
+    rule="a case = (fully populated object with a previous life, vector); objects over all 23 concrete Vectorizable "
+         "classes x dims where vectorizable x landmark groups 0..2 x masks all-true/sparse/single/empty x pixel "
+         "dtypes x image dimensions 2..4 (incl. single rows, implicit channel) x integer-typed coordinates / matrices "
+         "x boundary point counts 0..2 x lives (constructor, copy, from_vector result, from_vector of the ancestor's "
+         "read-only view, updated in place twice, as_vector view alive); vectors: the object's own vector, "
+         "right-length dyadic vectors in float64 / float32 / int64 (canonical unit quaternions for rotations), wrong "
+         "lengths n+-1, n/2, 2n, 0, 1 and the other branch lengths 4/6/7/12; every (object, vector) also goes through "
+         "from_vector_inplace on a twin object; images also through from_vector(v, n_channels=k), "
+         "as_vector(keep_channels=True), from_vector(v, copy=False); distinct = distinct (class, object recipe, "
          "vector); non-trivial = object has >= 2 points / pixels / a non-identity matrix",
     partial=["float rounding is not modelled: the theorems are over exact rationals; the implementation is compared "
              "to 1e-9 (dyadic inputs make everything but quaternion normalisation exact)",
              "Rotation._as_vector: `np.linalg.eigh` is a contract parameter (unit eigenvector of the dominant "
-             "eigenvalue); both round trips are proved for any eigen-solver meeting the contract, from_as for "
-             "rotation matrices that are the image of a canonical unit quaternion (every rotation, up to float "
-             "rounding); the contract is checked numerically on every rotation case",
-             "receiver purity is proved on a heap abstraction (buffers written in place vs buffers fresh in the "
-             "resolved copy, table regenerated from the live classes); which buffers each supplier writes in place "
-             "is transcribed by hand and exercised by the digest oracle on the real objects",
-             "3-D Similarity and 2-D Rotation are not vectorizable in menpo (NotImplementedError) and are outside "
-             "the property's quantifier; only their error kinds are compared"],
+             "eigenvalue); both round trips are proved for any eigen-solver meeting the contract (satisfiable at every "
+             "unit quaternion: eigh_contract_satisfiable), from_as for rotation matrices that are the image of a "
+             "canonical unit quaternion (every rotation, up to float rounding); the contract is checked numerically "
+             "on every rotation case",
+             "the heap theorems abstract an object to seven array buffers (coordinates, pixels, matrix, target, "
+             "source, mask, everything else) and the suppliers to may-write / may-rebind sets; that abstraction is "
+             "measured on three specimens per class (effects_ok), not on every input: on the other inputs receiver "
+             "purity is decided by the byte-digest oracle",
+             "dtypes are modelled as a tag calculus (which construction idiom each supplier uses); the value of a "
+             "lossy cast (from_vector_inplace of a float vector into a partially masked integer image) is not "
+             "modelled and only its outcome, well-formedness and dtype are compared",
+             "from_vector_inplace, the n_channels / keep_channels / copy options and dtypes are not named by the "
+             "property text: they are proved in the model and tied by the correspondence (a disagreement is a broken "
+             "tie followed by the directed search), not judged by the property oracle"],
     assumptions=["objects are built through the public constructors from small dyadic data (general position for "
                  "alignment sources)"],
     design_ref="DESIGN.md section 6, C05; section 7 #2-#5")
@@ -66,8 +92,23 @@ THEOREMS = [
     "MenpoModel.C05.affine_wrong_length_coded_refuted", "MenpoModel.C05.uscale_wrong_length_coded_refuted",
     "MenpoModel.C05.uscale_ndim", "MenpoModel.C05.quat_matrix_orthogonal", "MenpoModel.C05.K_of_rotation",
     "MenpoModel.C05.rotation_as_from", "MenpoModel.C05.rotation_from_as", "MenpoModel.C05.shape_nparams", "MenpoModel.C05.from_vector_pure_heap", "MenpoModel.C05.expected_rows_pure",
+    "MenpoModel.C05.from_vector_program_pure", "MenpoModel.C05.from_vector_inplace_local",
+    "MenpoModel.C05.from_vector_inplace_effect", "MenpoModel.C05.expected_steps_ok",
+    "MenpoModel.C05.shape_inplace_agrees", "MenpoModel.C05.xf_inplace_agrees", "MenpoModel.C05.image_inplace_agrees",
+    "MenpoModel.C05.img_fvi_carried", "MenpoModel.C05.img_fvi_as_from", "MenpoModel.C05.masked_fvi_keeps_outside",
+    "MenpoModel.C05.boolean_inplace_not_coerced", "MenpoModel.C05.failed_inplace_keeps_receiver",
+    "MenpoModel.C05.alignment_affine_failed_inplace_half_updated",
+    "MenpoModel.C05.similarity3d_not_vectorizable", "MenpoModel.C05.similarity3d_four_params_become_2d",
+    "MenpoModel.C05.rotation2d_not_vectorizable", "MenpoModel.C05.masked_all_false",
+    "MenpoModel.C05.from_vector_dtype", "MenpoModel.C05.as_from_dtype", "MenpoModel.C05.masked_inplace_dtype",
+    "MenpoModel.C05.eigh_contract_satisfiable",
+    "MenpoModel.C05.shape_right_length_accepted", "MenpoModel.C05.img_right_length_accepted",
+    "MenpoModel.C05.xf_right_length_accepted",
+    "MenpoModel.C05.fromVecN_eq_blank", "MenpoModel.C05.fromVecN_self", "MenpoModel.C05.fromVecN_spec",
+    "MenpoModel.C05.asVecKeep_flatten",
     "MenpoModel.C05.GenProps.dispatch_ok", "MenpoModel.C05.GenProps.dispatch_count",
-    "MenpoModel.C05.GenProps.dispatch_pure",
+    "MenpoModel.C05.GenProps.dispatch_pure", "MenpoModel.C05.GenProps.effects_ok",
+    "MenpoModel.C05.GenProps.effects_pure",
 ]
 
 SHAPES = ["PointCloud", "PointUndirectedGraph", "PointDirectedGraph", "PointTree", "LabelledPointUndirectedGraph",
@@ -98,7 +139,7 @@ def build(rc):
     c = rc["cls"]
     f = lambda k: np.array(rc[k], dtype=float)
     if c in SHAPES:
-        pts = f("points").reshape(-1, rc["d"])
+        pts = np.array(rc["points"], dtype=rc.get("pdtype", "float64")).reshape(-1, rc["d"])
         if c == "PointCloud":
             o = ms.PointCloud(pts)
         elif c == "PointUndirectedGraph":
@@ -120,10 +161,13 @@ def build(rc):
             o = ms.TexturedTriMesh(pts, f("tcoords"), mi.Image(f("texture")),
                                    trilist=np.array(rc["trilist"], dtype=int).reshape(-1, 3))
     elif c in IMAGES:
+        px = np.array(rc["pixels"], dtype=rc["dtype"]) if c != "BooleanImage" else None
+        if rc.get("implicit_channel"):
+            px = px[0]          # a 2-D array: one implicit channel
         if c == "Image":
-            o = mi.Image(np.array(rc["pixels"], dtype=rc["dtype"]))
+            o = mi.Image(px)
         elif c == "MaskedImage":
-            o = mi.MaskedImage(np.array(rc["pixels"], dtype=rc["dtype"]), mask=np.array(rc["mask"], dtype=bool))
+            o = mi.MaskedImage(px, mask=np.array(rc["mask"], dtype=bool))
         else:
             o = mi.BooleanImage(np.array(rc["mask"], dtype=bool))
     else:
@@ -142,7 +186,47 @@ def build(rc):
             o = mt.Rotation(f("R"))
     for name, lp in rc.get("landmarks", []):
         o.landmarks[name] = ms.PointCloud(np.array(lp, dtype=float))
-    return o
+    return live(o, rc)
+
+
+LIVES = ["fresh", "copy", "fv", "fv-view", "fvi", "av-alive"]
+_KEEP = []          # ancestors and views kept alive on purpose (a bounded ring)
+
+
+def live(o, rc):
+    """the previous life of the object under test (recipe key `life`): a copy, the result of an earlier
+    from_vector (of a private vector, or directly of the ancestor's read-only as_vector() view), an object that
+    was updated in place twice (away and back), an object whose as_vector() view is still alive"""
+    import warnings
+    np = np_()
+    life = rc.get("life", "fresh")
+    if life == "fresh" or not vectorizable_dim(rc):
+        return o
+    if life == "copy":
+        r = o.copy()
+    elif life == "fv":
+        r = o.from_vector(np.array(o.as_vector()))
+    elif life == "fv-view":
+        r = o.from_vector(o.as_vector())
+    elif life == "fvi":
+        own = np.array(o.as_vector())
+        if own.dtype == bool:
+            away = ~own
+        elif rc["cls"] in ("Rotation", "AlignmentRotation"):
+            away = np.array([0.5, -0.5, 0.5, 0.5])
+        else:
+            away = (own + 1).astype(own.dtype)
+        with warnings.catch_warnings():
+            warnings.simplefilter("ignore")
+            o.from_vector_inplace(away)
+            o.from_vector_inplace(own)
+        r = o
+    else:
+        _KEEP.append(o.as_vector())
+        r = o
+    _KEEP.append(o)
+    del _KEEP[:-64]
+    return r
 
 
 def py_of(rc, vec, call):
@@ -173,9 +257,20 @@ def gen_trilist(rng, n):
 
 
 def gen_shape(rng, c):
-    d = rng.choice([2, 3]) if c != "TexturedTriMesh" or True else 2
+    d = rng.choice([2, 3])
     n = rng.randint(3, 6)
+    if c == "PointCloud" and rng.random() < 0.2:
+        n = rng.choice([0, 1, 1, 2])                     # boundary sizes
     rc = {"cls": c, "d": d, "points": [[dy(rng) for _ in range(d)] for _ in range(n)]}
+    if rng.random() < 0.15:
+        # coordinates typed as integers (pixel indices): the object stores an int64 array
+        rc["points"] = [[float(round(x)) for x in p] for p in rc["points"]]
+        rc["pdtype"] = "int64"
+    r = rng.random()
+    if r < 0.1:
+        rc["vdtype"] = "float32"
+    elif r < 0.2:
+        rc["vdtype"] = "int64"
     if c in ("PointUndirectedGraph", "LabelledPointUndirectedGraph"):
         a = [[0] * n for _ in range(n)]
         for _ in range(rng.randint(1, n + 1)):
@@ -210,10 +305,14 @@ def gen_shape(rng, c):
 
 
 def gen_image(rng, c):
-    nd = rng.choice([2, 2, 2, 3])
+    nd = rng.choice([2, 2, 2, 2, 3, 3, 4])
     shape = [rng.randint(1, 4) for _ in range(nd)]
     if nd == 3:
         shape = [rng.randint(1, 3) for _ in range(nd)]
+    if nd == 4:
+        shape = [rng.randint(1, 2) for _ in range(nd)]
+    if nd == 2 and rng.random() < 0.15:
+        shape[rng.randrange(2)] = 1                      # a single row / column
     npix = 1
     for s in shape:
         npix *= s
@@ -251,6 +350,8 @@ def gen_image(rng, c):
         if c == "MaskedImage":
             kind, b = maskbits()
             rc["mask"], rc["maskkind"] = nested(b[::-1], shape), kind
+        if nd == 2 and nch == 1 and rng.random() < 0.3:
+            rc["implicit_channel"] = True
     rc["landmarks"] = gen_landmarks(rng, nd)
     return rc
 
@@ -327,10 +428,24 @@ def gen_xf(rng, c):
         else:
             cs, sn = common.rat_circle(rng, 6)
             rc["R"] = [[float(cs), -float(sn)], [float(sn), float(cs)]]
+    if c not in ("Rotation", "AlignmentRotation"):
+        # rotations excepted: normalising a quaternion in float32 / integers is not exact
+        r = rng.random()
+        if r < 0.1:
+            rc["vdtype"] = "float32"
+        elif r < 0.2:
+            rc["vdtype"] = "int64"
     return rc
 
 
 def gen_recipe(rng, c):
+    rc = gen_recipe0(rng, c)
+    # previous lives (history): 55% born from the constructor, the rest spread over the other lives
+    rc["life"] = "fresh" if rng.random() < 0.55 else rng.choice(LIVES[1:])
+    return rc
+
+
+def gen_recipe0(rng, c):
     if c == "PointTree":
         # Tree.__init__ compares the index arrays of scipy's BFS tree with the adjacency matrix, which depends
         # on the storage order scipy returns; recipes the constructor itself rejects are redrawn
@@ -374,7 +489,9 @@ def gen_right_vector(rng, rc, n):
             # float64 vector for a uint8 / float32 image: non-integral, negative, beyond 255, not float32-exact
             return np.array([dy(rng, 600, 3) + rng.choice([0.0, 2.0 ** -30]) for _ in range(n)], dtype="float64")
         return np.array([dy(rng, 32, 3) for _ in range(n)], dtype=vd)
-    return np.array([dy(rng, 12, 2) for _ in range(n)], dtype=float)
+    if rc.get("vdtype") == "int64":
+        return np.array([rng.randint(-12, 12) for _ in range(n)], dtype="int64")
+    return np.array([dy(rng, 12, 2) for _ in range(n)], dtype=rc.get("vdtype") or float)
 
 
 def wrong_lengths(rng, rc, n):
@@ -396,6 +513,10 @@ def gen_wrong_vector(rng, rc, L):
     if rc["cls"] in IMAGES and rc["dtype"] == "uint8":
         return np.array([rng.randint(1, 255) for _ in range(L)], dtype="uint8")
     dt = rc["dtype"] if rc["cls"] in IMAGES else float
+    if rc["cls"] not in IMAGES and rc.get("vdtype") == "int64":
+        return np.array([rng.choice([-1, 1]) * rng.randint(1, 12) for _ in range(L)], dtype="int64")
+    if rc["cls"] not in IMAGES and rc.get("vdtype"):
+        dt = rc["vdtype"]
     return np.array([dy(rng, 12, 2, nonzero=True) for _ in range(L)], dtype=dt)
 
 
@@ -625,6 +746,7 @@ def run_as_vector(ctx, rc, obj):
     rp = {"recipe": rc, "python": py_of(rc, None, "w = obj.as_vector(); print(w.shape, w.flags.writeable, obj.n_parameters)")}
     site_av = "C05/as_vector/" + supplier_of(obj, "_as_vector")
     before = digest(obj)
+    writable0 = {name for name, a in own_arrays(obj) if a.flags.writeable}
     try:
         v = obj.as_vector()
     except Exception as e:
@@ -645,7 +767,8 @@ def run_as_vector(ctx, rc, obj):
         ctx.check(v.shape == (n,), site_av, "length", "%s.as_vector() has %r entries, n_parameters = %r" % (c, v.shape, n), rp)
     ctx.check(not v.flags.writeable, site_av, "writable-vector", "%s.as_vector() is writable" % c, rp)
     for name, a in own_arrays(obj):
-        ctx.check(a.flags.writeable, site_av, "object-frozen",
+        # (an object born from a read-only vector holds a read-only view from the start: not as_vector's doing)
+        ctx.check(a.flags.writeable or name not in writable0, site_av, "object-frozen",
                   "after as_vector() the object's own array %s is read-only" % name, rp)
     ctx.check(digest(obj) == before, site_av, "receiver-changed", "%s.as_vector() changed the object" % c, rp)
     return np.atleast_1d(v), n
@@ -710,9 +833,52 @@ def observe_result(r, obj):
         o["h"] = None if r.h_matrix is None else np.asarray(r.h_matrix, dtype=float)
         o["tgt"] = np.asarray(r.target.points, dtype=float) if c in ALIGN else None
     try:
-        o["av"] = ("vec", np.atleast_1d(np.asarray(r.as_vector(), dtype=float)))
+        av = r.as_vector()
+        o["av"] = ("vec", np.atleast_1d(np.asarray(av, dtype=float)))
+        o["avdt"] = dt_name(av.dtype)
     except Exception as e:
         o["av"] = ("err", err_kind(e))
+    o["dt"] = dt_name(main_array(r).dtype) if main_array(r) is not None else None
+    return o
+
+
+def main_array(o):
+    """the array the vector is about: coordinates / pixels / homogeneous matrix"""
+    c = type(o).__name__
+    return o.points if c in SHAPES else o.pixels if c in IMAGES else o.h_matrix
+
+
+def dt_name(dt):
+    n = str(dt)
+    return n if n in ("bool", "uint8", "int64", "float32", "float64") else "other"
+
+
+def run_inplace(rc, obj, v):
+    """the deprecated public mutator on a second object built from the same recipe: Obs of the receiver after
+    `from_vector_inplace(v)` plus what the call itself did (return value, warning, receiver after a failure)"""
+    import warnings
+    np = np_()
+    o2 = build(rc)
+    before = digest(o2)
+    with warnings.catch_warnings(record=True) as wl:
+        warnings.simplefilter("always")
+        try:
+            ret = o2.from_vector_inplace(v)
+            exc = None
+        except Exception as e:
+            ret, exc = None, e
+    deprecated = any(w.category.__name__ == "MenpoDeprecationWarning" for w in wl)
+    if exc is not None:
+        o = Obs(kind="err", err=err_kind(exc))
+        o["receiver_kept"] = digest(o2) == before
+        if type(o2).__name__ in XFS:
+            o["h_after"] = None if o2.h_matrix is None else np.asarray(o2.h_matrix, dtype=float)
+            o["rest_kept"] = (not type(o2).__name__ in ALIGN or
+                              (digest(o2.source) == digest(obj.source) and digest(o2.target) == digest(obj.target)))
+    else:
+        o = observe_result(o2, obj)
+        o["returned_none"] = ret is None
+    o["deprecated"] = deprecated
     return o
 
 
@@ -729,6 +895,7 @@ def run_from_vector(ctx, rc, obj, v, mode):
     rp = {"recipe": rc, "vector": [float(x) for x in np.asarray(v, dtype=float)], "mode": mode,
           "python": py_of(rc, v, "r = obj.from_vector(%s)" % ("obj.as_vector()" if mode == "own" else "v"))}
     before = digest(obj)
+    writable0 = {name for name, a in own_arrays(obj) if a.flags.writeable}
     v_before = np.array(v, copy=True)
     try:
         r = obj.from_vector(v)
@@ -761,7 +928,7 @@ def run_from_vector(ctx, rc, obj, v, mode):
             ctx.fail("C05/from_vector/" + (impl_site if "target" in pat else base_site), pat,
                      "%s (%s vector): %s" % (c, "its own" if mode == "own" else "a right-length", text), rp)
         for name, a in own_arrays(obj):
-            ctx.check(a.flags.writeable, "C05/from_vector.receiver/" + impl_site, "object-frozen",
+            ctx.check(a.flags.writeable or name not in writable0, "C05/from_vector.receiver/" + impl_site, "object-frozen",
                       "after from_vector the receiver's own array %s is read-only" % name, rp)
     return observe_result(r, obj)
 
@@ -858,7 +1025,10 @@ def parse_reply(s, fam):
     else:
         assert rd.tok() == "av"
         out["av"] = ("vec", rd.vec())
-    for tag in ("C", "F"):
+    for tag in ("C", "F", "I", "J"):
+        if tag == "I" and fam == "xf":
+            out["I"], out["J"] = out["C"], out["F"]        # Homogeneous.from_vector = copy() + in-place update
+            break
         assert rd.tok() == tag, s
         k = rd.tok()
         if k == "err":
@@ -874,6 +1044,9 @@ def parse_reply(s, fam):
             res["av"] = ("vec", rd.vec())
             res["state"] = rd.vec()
         out[tag] = res
+    if fam == "xf" and rd.peek() == "X":
+        rd.tok()
+        out["X"] = rd.mat()
     return out
 
 
@@ -897,8 +1070,9 @@ def av_match(model_av, impl_av):
     return vec_match(model_av[1], impl_av[1])
 
 
-def result_match(m, o, fam):
-    """does the model result m describe the implementation observation o?"""
+def result_match(m, o, fam, values=True):
+    """does the model result m describe the implementation observation o?  (`values=False`: the assignment cast
+    the vector to the image's dtype, which the exact model does not follow: outcome and well-formedness only)"""
     np = np_()
     if m["kind"] != o["kind"]:
         return False
@@ -906,6 +1080,8 @@ def result_match(m, o, fam):
         return m["err"] == o["err"]
     if m["wf"] != o["wf"]:
         return False
+    if not values:
+        return m["lms"] == o["lms"] and len(m["state"]) == len(o["state"])
     if fam == "xf":
         r, c, vals = m["h"]
         if o["h"] is None:
@@ -963,12 +1139,78 @@ def compare(ctx, cid, rc, rec, reply):
     else:
         ctx.mismatch("from_vector", "%s mode=%s: implementation %s, model coded %s / fixed %s" % (
             rc["cls"], rec["mode"], brief(o), brief(m["C"]), brief(m["F"])), rp)
+    compare_inplace(ctx, rc, rec, m, fam, rp)
 
 
 def brief(o):
     if o["kind"] == "err":
         return "err:" + o["err"]
     return "ok(wf=%s)" % o["wf"]
+
+
+def compare_inplace(ctx, rc, rec, m, fam, rp):
+    """from_vector_inplace: model (`fvi`, both variants) vs the receiver after the call"""
+    o = rec.get("ip")
+    if o is None:
+        return
+    if not o["deprecated"]:
+        ctx.mismatch("from_vector_inplace.warning", "%s.from_vector_inplace did not warn MenpoDeprecationWarning" % rc["cls"], rp)
+    if o["kind"] == "ok" and not o["returned_none"]:
+        ctx.mismatch("from_vector_inplace.return", "%s.from_vector_inplace returned a value" % rc["cls"], rp)
+    if o["kind"] == "err":
+        # the receiver after a failed update: untouched, except where the model says otherwise (`afterFailedFvi`)
+        if fam != "xf":
+            ok = o["receiver_kept"]
+        else:
+            r_, c_, vals = m["X"]
+            ok = o["rest_kept"] and (o["h_after"] is not None and o["h_after"].shape == (r_, c_) and
+                                     arr_close([float(x) for x in vals], o["h_after"].ravel()))
+            ctx.count("inplace:failed:" + ("receiver-kept" if o["receiver_kept"] else "receiver-half-updated"))
+        if not ok:
+            ctx.mismatch("from_vector_inplace.failed-update", "%s.from_vector_inplace raised and left the receiver in a "
+                         "state the model does not predict" % rc["cls"], rp)
+    values = not rec.get("ip_lossy")
+    if result_match(m["J"], o, fam, values):
+        ctx.count("inplace:matches-fixed")
+    elif result_match(m["I"], o, fam, values):
+        ctx.count("inplace:matches-coded-only")
+        compliant = rec["mode"] == "wrong" and (m["I"]["kind"] == "err" or m["I"]["wf"])
+        if not rec["oracle_failed"] and not compliant:
+            ctx.mismatch("from_vector_inplace", "%s: the in-place update follows the coded (defective) model branch but "
+                                                "the from_vector oracle accepted the case" % rc["cls"], rp)
+    else:
+        ctx.mismatch("from_vector_inplace", "%s mode=%s: receiver after from_vector_inplace %s, model coded %s / fixed %s"
+                     % (rc["cls"], rec["mode"], brief(o), brief(m["I"]), brief(m["J"])), rp)
+
+
+def parse_dt(reply):
+    t = reply.split()
+    return dict(zip(t[0::2], t[1::2]))
+
+
+def compare_dtype(ctx, rc, rec, reply):
+    """the dtype table of the model vs the arrays of the real results"""
+    rp = {"recipe": rc, "vector": rec["vec"], "mode": rec["mode"], "vdtype": rec["dts"][1], "model_reply": reply}
+    try:
+        m = parse_dt(reply)
+        m["fv"], m["av"], m["ip"], m["own"]
+    except Exception:
+        ctx.mismatch("parse", "unreadable model reply %r" % reply[:200], rp)
+        return
+    if rec["avdt"] is not None and m["own"] != rec["avdt"]:
+        ctx.mismatch("dtype.as_vector", "%s: as_vector() is %s, model %s" % (rc["cls"], rec["avdt"], m["own"]), rp)
+    o = rec["fv"]
+    if o is not None and o["kind"] == "ok":
+        if o.get("dt") != m["fv"]:
+            ctx.mismatch("dtype.from_vector", "%s (%s array, %s vector): from_vector built a %s array, model %s"
+                         % (rc["cls"], rec["dts"][0], rec["dts"][1], o.get("dt"), m["fv"]), rp)
+        if "avdt" in o and o["avdt"] != m["av"]:
+            ctx.mismatch("dtype.as_from", "%s: from_vector(v).as_vector() is %s, model %s" % (rc["cls"], o["avdt"], m["av"]), rp)
+    o = rec.get("ip")
+    if o is not None and o["kind"] == "ok" and o.get("dt") != m["ip"]:
+        ctx.mismatch("dtype.from_vector_inplace", "%s (%s array, %s vector): after from_vector_inplace the array is %s, "
+                     "model %s" % (rc["cls"], rec["dts"][0], rec["dts"][1], o.get("dt"), m["ip"]), rp)
+    ctx.count("dtype:%s<-%s" % (rec["dts"][0], rec["dts"][1]))
 
 
 # ------------------------------------------------------------------------------------- one object
@@ -1035,8 +1277,134 @@ def explore_object(ctx, rng, rc, lines, recs, n_wrong, with_model=True):
         if with_model:
             cid = str(len(lines))
             lines.append(request_line(cid, rc, obj, v))
+            ip = run_inplace(rc, obj, v)
+            ctx.count("inplace:%s:%s" % (mode, ip["kind"] if ip["kind"] == "ok" else "err-" + ip["err"]))
+            arr = main_array(obj)
+            full = c == "MaskedImage" and bool(obj.mask.all_true())
+            with np.errstate(all="ignore"):
+                lossy = (c == "MaskedImage" and not full and
+                         not np.array_equal(np.asarray(v).astype(arr.dtype).astype(np.asarray(v).dtype), np.asarray(v)))
             recs[cid] = dict(rc=rc, vec=fl(v), mode=mode, np=n, av=("vec", np.asarray(own, dtype=float)), nd=nd, fv=o,
-                             oracle_failed=failed)
+                             oracle_failed=failed, ip=ip, ip_lossy=lossy)
+            did = str(len(lines))
+            dts = (dt_name(arr.dtype), dt_name(np.asarray(v).dtype))
+            lines.append("%s dt %s %d %s %s" % (did, c, 1 if full else 0, dts[0], dts[1]))
+            recs[did] = dict(rc=rc, vec=fl(v), mode=mode, dts=dts, avdt=dt_name(own.dtype), fv=o, ip=ip, dtype_line=True)
+    if with_model and c in ("Image", "MaskedImage"):
+        explore_options(ctx, rng, rc, obj, own, lines, recs)
+    if c in ("Image", "BooleanImage"):
+        explore_nocopy(ctx, rng, rc, obj, own, n)
+    ctx.count("life:" + rc.get("life", "fresh"))
+
+
+def explore_options(ctx, rng, rc, obj, own, lines, recs, given=None):
+    """the options of the image entry points: from_vector(v, n_channels=k) and as_vector(keep_channels=True)"""
+    np = np_()
+    c = rc["cls"]
+    per = int(obj.mask.n_true()) if c == "MaskedImage" else int(np.prod(obj.shape))
+    vd = rc.get("vdtype", rc["dtype"])
+    if given is not None:
+        k, v = given[0], np.array(given[1], dtype=vd)
+        L = len(v)
+    else:
+        k = rng.choice([1, 2, 3])
+        L = k * per
+        if rng.random() < 0.35:
+            L = rng.choice([x for x in (L + 1, L - 1, L + k, per, k, 2 * L, 0) if x >= 0 and x != L] or [L + 1])
+        if vd == "uint8":
+            v = np.array([rng.randint(0, 255) for _ in range(L)], dtype="uint8")
+        else:
+            v = np.array([dy(rng, 32, 3) for _ in range(L)], dtype=vd)
+    rp = {"recipe": rc, "vector": [float(x) for x in v], "n_channels": k,
+          "python": py_of(rc, v, "r = obj.from_vector(v, n_channels=%d); K = obj.as_vector(keep_channels=True)" % k)}
+    site = "C05/from_vector.receiver/" + supplier_of(obj, "from_vector")
+    before = digest(obj)
+    try:
+        r = obj.from_vector(v, n_channels=k)
+        o = observe_result(r, obj)
+        o["nch"] = int(r.n_channels)
+    except Exception as e:
+        o = Obs(kind="err", err=err_kind(e))
+    ctx.check(digest(obj) == before, site, "receiver-changed",
+              "%s.from_vector(v, n_channels=%d) changed the object it was called on" % (c, k), rp)
+    try:
+        K = obj.as_vector(keep_channels=True)
+        keep = [np.asarray(row, dtype=float) for row in K] if K.ndim == 2 else None
+        ctx.check(not K.flags.writeable, "C05/as_vector/" + supplier_of(obj, "_as_vector"), "writable-vector",
+                  "%s.as_vector(keep_channels=True) is writable" % c, rp)
+        ctx.check(K.ndim == 2 and np.array_equal(K.ravel(), own), "C05/as_vector/" + supplier_of(obj, "_as_vector"),
+                  "keep_channels", "%s.as_vector(keep_channels=True) is not as_vector() by channel" % c, rp)
+    except Exception as e:
+        keep = ("err", err_kind(e))
+    ctx.check(digest(obj) == before, "C05/as_vector/" + supplier_of(obj, "_as_vector"), "receiver-changed",
+              "%s.as_vector(keep_channels=True) changed the object" % c, rp)
+    ctx.count("option:n_channels:%s" % (o["kind"] if o["kind"] == "ok" else "err-" + o["err"]))
+    ctx.case((c, "n_channels", json.dumps({a: w for a, w in rc.items() if a != "_n"}, sort_keys=True), k, tuple(fl(v))),
+             nontrivial=(L >= 2))
+    cid = str(len(lines))
+    base = request_line(cid, rc, obj, v).split(" ")
+    nv = len(v) + 1                                       # "<m> v1..vm" at the end of the img line
+    toks = base[:len(base) - nv] + [str(k)] + base[len(base) - nv:]
+    toks[1] = "imgn"
+    lines.append(" ".join(toks))
+    recs[cid] = dict(rc=rc, vec=fl(v), mode="n_channels", option_line=True, k=k, fv=o, keep=keep)
+
+
+def explore_nocopy(ctx, rng, rc, obj, own, n):
+    """from_vector(v, copy=False) (Image, BooleanImage): the same image as from_vector(v), the receiver untouched —
+    also when v is the receiver's own read-only as_vector() view, which the result then aliases (oracle only)"""
+    import warnings
+    np = np_()
+    c = rc["cls"]
+    for mode, v in (("own", own), ("right", gen_right_vector(rng, rc, n))):
+        rp = {"recipe": rc, "vector": [float(x) for x in np.asarray(v, dtype=float)], "mode": mode,
+              "python": py_of(rc, v, "r = obj.from_vector(%s, copy=False)" % ("obj.as_vector()" if mode == "own" else "v"))}
+        site = "C05/from_vector.receiver/" + supplier_of(obj, "from_vector")
+        before = digest(obj)
+        try:
+            with warnings.catch_warnings():
+                warnings.simplefilter("ignore")
+                r = obj.from_vector(v, copy=False)
+            ref = obj.from_vector(v)
+        except Exception as e:
+            ctx.fail("C05/from_vector/" + supplier_of(obj, "from_vector"), "raises",
+                     "%s.from_vector(v, copy=False) raised %s on a vector of the right length" % (c, type(e).__name__), rp)
+            continue
+        ctx.check(digest(obj) == before, site, "receiver-changed",
+                  "%s.from_vector(v, copy=False) changed the object it was called on" % c, rp)
+        for pat, text in state_problems(r, obj, v, rc, full=(mode == "own")):
+            ctx.fail("C05/from_vector/" + supplier_of(obj, "from_vector"), pat,
+                     "%s (copy=False, %s vector): %s" % (c, "its own" if mode == "own" else "a right-length", text), rp)
+        ctx.check(digest(r.pixels) == digest(ref.pixels), "C05/from_vector/" + supplier_of(obj, "from_vector"),
+                  "copy-flag-changes-result", "%s.from_vector(v, copy=False) differs from from_vector(v)" % c, rp)
+        ctx.count("option:copy=False:" + mode)
+        ctx.case((c, "nocopy", mode, json.dumps({a: w for a, w in rc.items() if a != "_n"}, sort_keys=True),
+                  tuple(fl(v))), nontrivial=(n >= 2))
+
+
+def compare_options(ctx, rc, rec, reply):
+    rp = {"recipe": rc, "vector": rec["vec"], "n_channels": rec["k"], "model_reply": reply[:600]}
+    try:
+        rd = Rd(reply)
+        assert rd.tok() == "N"
+        kd = rd.tok()
+        if kd == "err":
+            m = {"kind": "err", "err": rd.tok()}
+        else:
+            m = {"kind": "ok", "wf": rd.tok() == "1", "lms": int(rd.tok()), "av": ("vec", rd.vec()), "state": rd.vec(),
+                 "nch": int(rd.tok())}
+        assert rd.tok() == "K"
+        keep = [rd.vec() for _ in range(int(rd.tok()))]
+    except Exception:
+        ctx.mismatch("parse", "unreadable model reply %r" % reply[:200], rp)
+        return
+    o = rec["fv"]
+    if not (result_match(m, o, "img") and (m["kind"] == "err" or m["nch"] == o["nch"])):
+        ctx.mismatch("from_vector.n_channels", "%s.from_vector(v, n_channels=%d): implementation %s, model %s"
+                     % (rc["cls"], rec["k"], brief(o), brief(m)), rp)
+    ik = rec["keep"]
+    if ik is None or isinstance(ik, tuple) or len(ik) != len(keep) or not all(vec_match(a, b) for a, b in zip(keep, ik)):
+        ctx.mismatch("as_vector.keep_channels", "%s.as_vector(keep_channels=True) differs from the model's rows" % rc["cls"], rp)
 
 
 def install_fail_counter(ctx):
@@ -1060,6 +1428,7 @@ def generated(ctx):
     ctx.count("dispatch-table:" + ("ok" if ok else "BROKEN"))
     rows = extract_c05.table()
     ctx.notes["dispatch_rows"] = len(rows)
+    ctx.notes["effects_rows"] = {n: r for n, r in extract_c05.effects()}
 
 
 def prepare(ctx):
@@ -1102,11 +1471,13 @@ def search(ctx):
 def run(ctx):
     install_fail_counter(ctx)
     prepare(ctx)
-    ctx.trusted.extend(["numpy reshape / boolean-mask indexing / fill_diagonal / broadcasting semantics (modelled)",
+    ctx.trusted.extend(["numpy reshape / boolean-mask indexing / fill_diagonal / broadcasting / dtype-of-construction "
+                        "semantics (modelled)",
                         "np.linalg.eigh contract for Rotation._as_vector (checked numerically per case)",
-                        "harness/extract_c05.py (method-resolution table extraction)"])
+                        "harness/extract_c05.py (method-resolution table extraction; array instrumentation of the "
+                        "measured effects table: np.shares_memory, byte snapshots)"])
     rng = ctx.rng
-    per_class = ctx.n(16, 300)
+    per_class = ctx.n(32, 450)
     n_wrong = ctx.n(2, 4)
     lines, recs = [], {}
     for rnd in range(per_class):
@@ -1115,7 +1486,12 @@ def run(ctx):
             explore_object(ctx, rng, rc, lines, recs, n_wrong)
     model = common.run_driver(PROP, lines)
     for cid, rec in recs.items():
-        compare(ctx, cid, rec["rc"], rec, model[cid])
+        if rec.get("dtype_line"):
+            compare_dtype(ctx, rec["rc"], rec, model[cid])
+        elif rec.get("option_line"):
+            compare_options(ctx, rec["rc"], rec, model[cid])
+        else:
+            compare(ctx, cid, rec["rc"], rec, model[cid])
     return ctx.finish(search)
 
 
@@ -1139,11 +1515,19 @@ def replay(ctx, path):
     lines, recs = [], {}
     res = run_as_vector(ctx, rc, obj)
     print("as_vector:", None if res is None else (res[0].tolist(), res[1]))
-    if res is not None and "vector" in rp:
+    if res is not None and "vector" in rp and "n_channels" in rp:
+        vals = [float(common.pq(x)) if isinstance(x, str) else x for x in rp["vector"]]
+        explore_options(ctx, ctx.rng, rc, obj, res[0], lines, recs, given=(int(rp["n_channels"]), vals))
+        model = common.run_driver(PROP, lines)
+        for cid, rec in recs.items():
+            print("from_vector(v, n_channels=%d): %s; model: %s" % (rec["k"], brief(rec["fv"]), model[cid][:300]))
+            compare_options(ctx, rc, rec, model[cid])
+    elif res is not None and "vector" in rp:
         own, n = res
         rc["_n"] = n
         mode = rp.get("mode", "wrong")
-        v = own if mode == "own" else np.array(rp["vector"], dtype=rc.get("vdtype") or float)
+        vals = [float(common.pq(x)) if isinstance(x, str) else x for x in rp["vector"]]   # mismatch records: exact p/q
+        v = own if mode == "own" else np.array(vals, dtype=rp.get("vdtype") or rc.get("vdtype") or float)
         o = run_from_vector(ctx, rc, obj, v, mode)
         print("from_vector (%s, len %d): %s" % (mode, len(v), brief(o)))
         try:
@@ -1151,10 +1535,21 @@ def replay(ctx, path):
         except Exception:
             nd = None
         lines.append(request_line("0", rc, obj, v))
+        ip = run_inplace(rc, obj, v)
+        print("from_vector_inplace: %s" % brief(ip))
+        arr = main_array(obj)
+        full = rc["cls"] == "MaskedImage" and bool(obj.mask.all_true())
+        with np.errstate(all="ignore"):
+            lossy = (rc["cls"] == "MaskedImage" and not full and
+                     not np.array_equal(np.asarray(v).astype(arr.dtype).astype(np.asarray(v).dtype), np.asarray(v)))
         recs["0"] = dict(rc=rc, vec=fl(v), mode=mode, np=n, av=("vec", np.asarray(own, dtype=float)), nd=nd, fv=o,
-                         oracle_failed=ctx._c05_fails > 0)
+                         oracle_failed=ctx._c05_fails > 0, ip=ip, ip_lossy=lossy)
+        dts = (dt_name(arr.dtype), dt_name(np.asarray(v).dtype))
+        lines.append("1 dt %s %d %s %s" % (rc["cls"], 1 if full else 0, dts[0], dts[1]))
+        recs["1"] = dict(rc=rc, vec=fl(v), mode=mode, dts=dts, avdt=dt_name(own.dtype), fv=o, ip=ip, dtype_line=True)
         model = common.run_driver(PROP, lines)
-        print("model:", model["0"][:400])
+        print("model:", model["0"][:400], "|", model["1"])
         compare(ctx, "0", rc, recs["0"], model["0"])
+        compare_dtype(ctx, rc, recs["1"], model["1"])
     ctx.case(("replay", json.dumps(rc, sort_keys=True, default=str)))
     return ctx.finish(None)
